@@ -49,31 +49,39 @@ theorem trimScan_spec (row : List Cell) (la : Attr) : ∀ (fuel last : Nat),
 
 /-- the number of cells the writer keeps of a row: all of them, or at least two fewer, and then everything it drops is a
     `TrimCell` -/
-theorem ansiRowLen_spec (o : AnsiOpts) (w : Nat) (hw : 0 < w) (row : List Cell) :
-    1 ≤ ansiRowLen o w row ∧ ansiRowLen o w row ≤ w ∧
-    (ansiRowLen o w row = w ∨
-      (ansiRowLen o w row + 2 ≤ w ∧ ∀ i, ansiRowLen o w row ≤ i → i < w → TrimCell (row.getD i defaultCell))) := by
+theorem ansiRowLen_spec' (o : AnsiOpts) (pal : List Rgb) (w : Nat) (hw : 0 < w) (row : List Cell) :
+    1 ≤ ansiRowLen o pal w row ∧ ansiRowLen o pal w row ≤ w ∧
+    (ansiRowLen o pal w row = w ∨
+      (ansiRowLen o pal w row + 2 ≤ w ∧ getRgb pal 0 = (0, 0, 0) ∧
+        ∀ i, ansiRowLen o pal w row ≤ i → i < w → TrimCell (row.getD i defaultCell))) := by
   unfold ansiRowLen
   by_cases hc : (o.compress && !o.preserveLineLength) = true
   · rw [if_pos hc]
     simp only []
-    by_cases hb : (row.getD (w - 1) defaultCell).attr.bg = 0 ∧ (!(row.getD (w - 1) defaultCell).attr.fl.blink) = true
+    by_cases hb : (row.getD (w - 1) defaultCell).attr.bg = 0 ∧ getRgb pal 0 = (0, 0, 0) ∧ (!(row.getD (w - 1) defaultCell).attr.fl.blink) = true
     · rw [if_pos hb]
       obtain ⟨t1, t2⟩ := trimScan_spec row (row.getD (w - 1) defaultCell).attr w (w - 1)
       by_cases hl : w ≤ trimScan row (row.getD (w - 1) defaultCell).attr w (w - 1) + 1 + 1
       · rw [if_pos hl]; exact ⟨hw, Nat.le_refl _, Or.inl rfl⟩
       · rw [if_neg hl]
-        refine ⟨by omega, by omega, Or.inr ⟨by omega, ?_⟩⟩
+        refine ⟨by omega, by omega, Or.inr ⟨by omega, hb.2.1, ?_⟩⟩
         intro i h1 h2
         obtain ⟨b1, b2⟩ := t2 i (by omega) (by omega)
         refine ⟨b1, by rw [b2]; exact hb.1, ?_⟩
         rw [b2]
         cases hq : (row.getD (w - 1) defaultCell).attr.fl.blink with
         | false => rfl
-        | true => have := hb.2; rw [hq] at this; exact absurd this (by decide)
+        | true => have := hb.2.2; rw [hq] at this; exact absurd this (by decide)
     · rw [if_neg hb]
       have : w ≤ w - 1 + 1 + 1 := by omega
       rw [if_pos this]; exact ⟨hw, Nat.le_refl _, Or.inl rfl⟩
   · rw [if_neg hc]; exact ⟨hw, Nat.le_refl _, Or.inl rfl⟩
+
+theorem ansiRowLen_spec (o : AnsiOpts) (w : Nat) (hw : 0 < w) (row : List Cell) :
+    1 ≤ ansiRowLen o dosPalette w row ∧ ansiRowLen o dosPalette w row ≤ w ∧
+    (ansiRowLen o dosPalette w row = w ∨
+      (ansiRowLen o dosPalette w row + 2 ≤ w ∧ ∀ i, ansiRowLen o dosPalette w row ≤ i → i < w → TrimCell (row.getD i defaultCell))) := by
+  obtain ⟨h1, h2, h3⟩ := ansiRowLen_spec' o dosPalette w hw row
+  exact ⟨h1, h2, h3.elim Or.inl (fun h => Or.inr ⟨h.1, h.2.2⟩)⟩
 
 end IcyVerif.ArtIO
